@@ -1,7 +1,21 @@
-(* C06 dispatch: [dfaA, dfaB] -> the ten comparison answers; [dfa] -> isempty, isfinite *)
+(* C06 dispatch: [dfaA, dfaB] -> the ten comparison answers; [dfa] -> isempty, isfinite;
+   op 3: [dfaA, dfaB] -> == by the Hopcroft-Karp mirror model (Model/HK.v) under two schedules *)
 From Coq Require Import List Arith NArith Bool.
-From AV Require Import Base.Util Base.ITree Spec.Lang Spec.FA Model.Codec Model.Decide Model.Product.
+From AV Require Import Base.Util Base.ITree Spec.Lang Spec.FA Model.Codec Model.Decide Model.Product Model.HK.
 Import ListNotations.
+
+(* Hopcroft-Karp pair states (state or None, operand index) on the wire: [index, [] | [q]] *)
+Definition enc_del (e : option nat + option nat) : itree :=
+  match e with inl q => L [I 0%N; enc_opt In_ q] | inr q => L [I 1%N; enc_opt In_ q] end.
+Definition dec_del (t : itree) : option (option nat + option nat) :=
+  match t with
+  | L [I i; q] =>
+    match dec_opt dec_nat q with
+    | Some o => if N.eqb i 0 then Some (inl o) else if N.eqb i 1 then Some (inr o) else None
+    | None => None
+    end
+  | _ => None
+  end.
 
 Definition d06 (op : nat) (t : itree) : itree :=
   match op, t with
@@ -17,6 +31,20 @@ Definition d06 (op : nat) (t : itree) : itree :=
     match dec_dfa ta with
     | Some a => L [enc_res Ib (isempty_m a); enc_res Ib (isfinite_m a)]
     | None => bad_input
+    end
+  | 3, L [ta; tb] =>   (* DFA.__eq__ as coded: record symbol order / first root wins ties; reversed order / second wins *)
+    match dec_dfa ta, dec_dfa tb with
+    | Some a, Some b =>
+      L [enc_res Ib (hk_eq a b); enc_res Ib (hk_eq_gen (fun _ _ => false) (rev (d_syms a)) a b)]
+    | _, _ => bad_input
+    end
+  | 4, L [ta; tb; ts; tbl_t] =>   (* DFA.__eq__ under a given schedule: [A, B, symbol order, ordered root pairs on which the
+                                  first root survives a tie] -> [answer, the sequence of union calls] *)
+    match dec_dfa ta, dec_dfa tb, dec_nats ts, dec_list (dec_pair dec_del dec_del) tbl_t with
+    | Some a, Some b, Some syms, Some tbl =>
+      let r := hk_eq_log (tie_of_table (eqb_opt Nat.eqb) (eqb_opt Nat.eqb) tbl) syms a b in
+      L [enc_res Ib (fst r); enc_list (enc_pair enc_del enc_del) (snd r)]
+    | _, _, _, _ => bad_input
     end
   | _, _ => bad_input
   end.
